@@ -35,7 +35,7 @@ def law_cases(ctx: Ctx, masked: bool):
         for w in ws[:ctx.pick(4, 20)]:
             masks = list(dl.all_masks(n)) if masked else [[True] * n]
             for m in masks:
-                for via in ("probs", "logits"):
+                for via in ("probs", "logits") + (("logits_forbidden_dominant",) if masked and not all(m) and len(cases) % 3 == 0 else ()):
                     cases.append(("cat", (w, m, via, keys)))
     for n in (2, 3):
         for a in list(itertools.product([1, 2, 3], repeat=n))[:ctx.pick(4, 27)]:
@@ -55,6 +55,8 @@ def law_cases(ctx: Ctx, masked: bool):
                 ms = [[True] * tot]
             for m in ms:
                 cases.append(("multi", (dims, w, m, keys)))
+                if masked and not all(m) and len(cases) % 2 == 0:       # forbidden classes 120 nats above every allowed one
+                    cases.append(("multi", (dims, w, m, keys, 120.0)))
     return cases
 
 
